@@ -311,6 +311,7 @@ func (ev *Evaler) Eval(src parse.Source, cfg EvalCfg) error {
 	}
 
 	ev.mu.Lock()
+	verifTrace(ev, nil, "eval.mu-locked")
 	b := ev.builtin
 	defaultGlobal := cfg.Global == nil
 	if defaultGlobal {
@@ -423,6 +424,7 @@ func (ev *Evaler) CheckTree(tree parse.Tree, w io.Writer) ([]string, error) {
 	ev.mu.RLock()
 	b, g, m := ev.builtin, ev.global, ev.modules
 	ev.mu.RUnlock()
+	verifTrace(ev, nil, "modules.iter")
 	_, autofixes, compileErr := compile(b.static(), g.static(), mapKeys(m), tree, w)
 	return autofixes, compileErr
 }
